@@ -212,6 +212,12 @@ type kase struct {
 	// admit
 	Admit *admitCase `json:"admit,omitempty"`
 
+	// relay (handshake-level attacker)
+	Relay *relayCase `json:"relay,omitempty"`
+
+	// admithist
+	Hist *admitHist `json:"hist,omitempty"`
+
 	// mconn
 	MConn *mconnCase `json:"mconn,omitempty"`
 }
@@ -225,6 +231,8 @@ type ctx struct {
 
 	streamCases, mitmCases, authCases, leftoverCases, leftoverFailing int64
 	streamNontrivial, mitmApplied, longStreamCases                    int64
+	histAttempts                                                      int64 // admission attempts judged in admission histories
+	relayMounted, relayNotMounted                                     int64 // handshake-relay attacks that reached / did not reach the target's verification
 
 	fl  *flights // cases being executed (stall watchdog)
 	cov *covState
